@@ -64,8 +64,8 @@ func (w *World) findProcRolesUncached() *procRoles {
 			}
 			pr.stopFn = fn
 		}
-		for _, b := range fn.Blocks {
-			for _, in := range b.Instrs {
+		for _, in := range w.insOf(fn) {
+			{
 				if st, ok := in.(*ssa.Store); ok {
 					if fa, ok := st.Addr.(*ssa.FieldAddr); ok && isFieldOf(fa, pr.ctxT, "message") {
 						if strings.HasSuffix(w.pathOf(st.Val), ".Msg") {
@@ -85,8 +85,8 @@ func (w *World) findProcRolesUncached() *procRoles {
 		}
 	}
 	for _, rf := range pr.recovers {
-		for _, b := range rf.Blocks {
-			for _, in := range b.Instrs {
+		for _, in := range w.insOf(rf) {
+			{
 				if c := callOf(in); c != nil {
 					if f := c.StaticCallee(); f != nil && isProcessMethod(w, f) && len(w.callsIn(f, EvCall("Start", pr.start))) > 0 {
 						if pr.restartFn != nil && pr.restartFn != f {
@@ -203,7 +203,7 @@ func checkC04(w *World, r *Report) {
 	if add == nil || reg == nil {
 		r.Unknown("C04.R1", "Registry.add", "Registry.add exists", "-", "not found")
 	} else {
-		g := w.FG(add)
+		g := w.FGI(add)
 		ins := make([]bool, len(g.ins))
 		for n, in := range g.ins {
 			if mu, ok := in.(*ssa.MapUpdate); ok && strings.HasSuffix(w.pathOf(mu.Map), ".lookup") {
@@ -222,7 +222,7 @@ func checkC04(w *World, r *Report) {
 			"Start can run before registration (messages sent from Started handlers to self dead-letter) or asynchronously (Spawn returns before Started)")
 	}
 	{
-		g := w.FG(pr.send)
+		g := w.FGI(pr.send)
 		evIS := EvInvoke("Inboxer.Send", w.IfaceMethod("actor", "Inboxer", "Send"))
 		S := w.Nodes(g, evIS, true)
 		plain := true
@@ -236,7 +236,7 @@ func checkC04(w *World, r *Report) {
 	}
 	spawnProc := w.Method("actor", "Engine", "SpawnProc")
 	if spawnProc != nil {
-		g := w.FG(spawnProc)
+		g := w.FGI(spawnProc)
 		A := w.Nodes(g, EvCall("Registry.add", add), true)
 		plain := true
 		for _, ci := range w.callsIn(spawnProc, EvCall("Registry.add", add)) {
@@ -257,7 +257,7 @@ func checkC04(w *World, r *Report) {
 
 // checkStopFn: shared by C04.R2, C06.R3.
 func checkStopFn(w *World, r *Report, pr *procRoles, rule string) {
-	g := w.FG(pr.stopFn)
+	g := w.FGI(pr.stopFn)
 	evD := pr.evDeliver()
 	evStop := EvInvoke("Inboxer.Stop", w.IfaceMethod("actor", "Inboxer", "Stop"))
 	evRem := EvCall("Registry.Remove", w.Method("actor", "Registry", "Remove"))
@@ -320,7 +320,7 @@ func checkC05(w *World, r *Report) {
 		}
 		nRec++
 		// the defer must be registered before the first delivery of the host
-		hg := w.FG(host)
+		hg := w.FGI(host)
 		defNodes := make([]bool, len(hg.ins))
 		for _, d := range hg.defers {
 			if deferredFn(hg.ins[d].(*ssa.Defer)) == rec {
@@ -336,7 +336,7 @@ func checkC05(w *World, r *Report) {
 		r.Check(ok, "C05.R2", key, "the recover handler is registered before any delivery of "+host.Name(), w.fnPos(rec),
 			"a delivery can run before the recover handler is deferred")
 		// on the recovered edge the restart function is reached, by a plain call
-		rg := w.FG(rec)
+		rg := w.FGI(rec)
 		pos, _ := rg.CondEdges(func(v ssa.Value) (bool, bool) {
 			if b, ok := v.(*ssa.BinOp); ok {
 				for _, pair := range [][2]ssa.Value{{b.X, b.Y}, {b.Y, b.X}} {
@@ -382,7 +382,7 @@ func checkC05(w *World, r *Report) {
 	}
 	// Start replays the buffer before opening the inbox
 	{
-		g := w.FG(pr.start)
+		g := w.FGI(pr.start)
 		evInv := EvCall("Invoke", pr.invoke)
 		evIStart := EvInvoke("Inboxer.Start", w.IfaceMethod("actor", "Inboxer", "Start"))
 		inv := w.Nodes(g, evInv, false)
@@ -412,7 +412,7 @@ func checkC05(w *World, r *Report) {
 
 	// R4
 	{
-		g := w.FG(pr.restartFn)
+		g := w.FGI(pr.restartFn)
 		evInc := EvStoreField(pr.procT, "restarts")
 		inc := w.Nodes(g, Ev{Name: evInc.Name, M: evInc.M, Shallow: true}, false)
 		evE := w.evBroadcast("actor", "ActorRestartedEvent")
@@ -453,8 +453,8 @@ func checkC05(w *World, r *Report) {
 			if fn == pr.restartFn {
 				continue
 			}
-			for _, b := range fn.Blocks {
-				for _, in := range b.Instrs {
+			for _, in := range w.insOf(fn) {
+				{
 					if evInc.M(in) {
 						if fa := in.(*ssa.Store).Addr.(*ssa.FieldAddr); true {
 							if _, fresh := fa.X.(*ssa.Alloc); !fresh {
@@ -493,7 +493,7 @@ func checkReplayCursor(w *World, r *Report, pr *procRoles) {
 		r.Unknown("C05.R3", "Invoke:cursor", "the batch function has a recover handler building the replay buffer", w.fnPos(pr.invoke), "no recover handler in Invoke")
 		return
 	}
-	g := w.FG(pr.invoke)
+	g := w.FGI(pr.invoke)
 	// candidate cursors: int variables captured by the recover handler and stored more than once by Invoke
 	var cursor *ssa.Alloc
 	n := 0
@@ -537,11 +537,32 @@ func checkReplayCursor(w *World, r *Report, pr *procRoles) {
 	// the recover handler must build the buffer from msgs offset by the cursor
 	{
 		ok := false
-		for _, b := range rec.Blocks {
-			for _, in := range b.Instrs {
+		// the construct may live in the handler itself or in a private helper the
+		// handler passes the cursor to: the cursor is then one of its parameters
+		builder, curTok, srcPrefix := rec, "FV:"+freeVarName(rec, cursor, g), "FV:"
+		for _, in := range w.insOf(rec) {
+			{
+				c, isC := in.(*ssa.Call)
+				if !isC || c.Call.StaticCallee() == nil || !w.isLib(c.Call.StaticCallee()) {
+					continue
+				}
+				cal := c.Call.StaticCallee()
+				if rg := w.FGI(rec); !writesField(cal, pr.procT, "mbuffer") || rg.inl[rg.idx[c]] {
+					continue // (a spliced helper already reads as part of the handler)
+				}
+				for k, a := range c.Call.Args {
+					if w.pathOf(a) == curTok && k < len(cal.Params) {
+						builder, curTok, srcPrefix = cal, fmt.Sprintf("P%d", k), "P"
+						break
+					}
+				}
+			}
+		}
+		for _, in := range w.insOf(builder) {
+			{
 				if st, isSt := in.(*ssa.Store); isSt {
 					p := w.pathOf(st.Val)
-					if strings.HasPrefix(p, "FV:") && strings.Contains(p, "[") && strings.Contains(p, "FV:"+freeVarName(rec, cursor, g)) {
+					if strings.HasPrefix(p, srcPrefix) && strings.Contains(p, "[") && strings.Contains(p, curTok) {
 						ok = true
 					}
 				}
@@ -549,12 +570,11 @@ func checkReplayCursor(w *World, r *Report, pr *procRoles) {
 		}
 		// and the buffer is a fresh slice sized from the cursor, allocated before the copy
 		alloc := false
-		cn := freeVarName(rec, cursor, g)
-		rg := w.FG(rec)
+		rg := w.FGI(builder)
 		for i, in := range rg.ins {
 			if st, isSt := in.(*ssa.Store); isSt {
 				if fa, isFA := st.Addr.(*ssa.FieldAddr); isFA && isFieldOf(fa, pr.procT, "mbuffer") {
-					if p := w.pathOf(st.Val); strings.HasPrefix(p, "makeslice(") && strings.Contains(p, "FV:"+cn) {
+					if p := w.pathOf(st.Val); strings.HasPrefix(p, "makeslice(") && strings.Contains(p, curTok) {
 						alloc = true
 						for j, in2 := range rg.ins {
 							if st2, ok2 := in2.(*ssa.Store); ok2 {
@@ -640,7 +660,7 @@ func checkC06(w *World, r *Report) {
 	if pr.fail(r, "C06.R1") {
 		return
 	}
-	g := w.FG(pr.restartFn)
+	g := w.FGI(pr.restartFn)
 	evStart := EvCall("Start", pr.start)
 	evStopFn := EvCall("stop", pr.stopFn)
 	exhausted, within := g.CondEdges(func(v ssa.Value) (bool, bool) {
@@ -748,7 +768,7 @@ func guardDesc(w *World, g *FG, n int) string {
 
 // checkChildrenRegion: C08.R1 (also part of C06.R3): children are poisoned and awaited before the inbox stops.
 func checkChildrenRegion(w *World, r *Report, pr *procRoles, rule string) {
-	g := w.FG(pr.stopFn)
+	g := w.FGI(pr.stopFn)
 	poison := w.Method("actor", "Engine", "Poison")
 	stop := w.Method("actor", "Engine", "Stop")
 	poisonCtx := w.Method("actor", "Engine", "PoisonCtx")
@@ -874,8 +894,8 @@ func checkC07(w *World, r *Report) {
 	if spp == nil {
 		// find by role: method of Engine that builds a poisonPill literal
 		for _, fn := range w.MethodsOf("actor", "Engine") {
-			for _, b := range fn.Blocks {
-				for _, in := range b.Instrs {
+			for _, in := range w.insOf(fn) {
+				{
 					if al, ok := in.(*ssa.Alloc); ok {
 						if n, _ := structOf(al.Type()); sameNamed(n, pillT) {
 							spp = fn
@@ -888,7 +908,7 @@ func checkC07(w *World, r *Report) {
 	if spp == nil || pillT == nil {
 		r.Unknown("C07.R1", "sendPoisonPill", "the function that builds poison pills", "-", "not found")
 	} else {
-		g := w.FG(spp)
+		g := w.FGI(spp)
 		site := w.fnPos(spp)
 		fn := fname(spp)
 		// WithCancel call
@@ -1003,7 +1023,7 @@ func checkC07(w *World, r *Report) {
 	// R2
 	pr.lta.export(r, "C07.R2", []string{"cancel-before-stopped", "restart-buffer-dropped"},"the stop context is cancelled only after the inbox stopped, the actor was unregistered and handled Stopped")
 	{
-		g := w.FG(pr.stopFn)
+		g := w.FGI(pr.stopFn)
 		var cancelP *ssa.Parameter
 		for _, p := range pr.stopFn.Params {
 			if isCancelFunc(p.Type()) {
@@ -1047,7 +1067,7 @@ func checkC07(w *World, r *Report) {
 	checkDrainStart(w, r, "C07.R3")
 	// R3
 	{
-		g := w.FG(pr.invoke)
+		g := w.FGI(pr.invoke)
 		evStopFn := EvCall("stop", pr.stopFn)
 		calls := w.callsIn(pr.invoke, evStopFn)
 		D := w.Nodes(g, pr.evDeliver(), false)
@@ -1120,7 +1140,7 @@ func checkC07(w *World, r *Report) {
 
 	// R4
 	{
-		g := w.FG(pr.deliverFn)
+		g := w.FGI(pr.deliverFn)
 		n := 0
 		for i, in := range g.ins {
 			st, ok := in.(*ssa.Store)
@@ -1155,7 +1175,7 @@ func checkC07(w *World, r *Report) {
 	// R6: a crash while the pill is held (between recognising it and handing its cancel to the stop
 	// function) loses the pill: the recover handler can neither cancel nor re-buffer it.
 	{
-		g := w.FG(pr.invoke)
+		g := w.FGI(pr.invoke)
 		D := w.Nodes(g, pr.evDeliver(), false)
 		okEdges, _ := g.CondEdges(func(v ssa.Value) (bool, bool) {
 			p := w.pathOf(v)
@@ -1219,7 +1239,9 @@ func mustCallOnExit(g *FG, match func(ssa.Instruction) bool, cut map[Edge]bool) 
 				continue // satisfied
 			}
 		case *ssa.Return:
-			return false
+			if x.Parent() == g.fn {
+				return false
+			}
 		case *ssa.Go:
 		default:
 			if match(in) {
@@ -1245,7 +1267,7 @@ func checkPillLinearity(w *World, r *Report, pr *procRoles, rule string) {
 	pillT := w.Named("actor", "poisonPill")
 	n := 0
 	for _, fn := range w.MethodsOf("actor", "process") {
-		g := w.FG(fn)
+		g := w.FGI(fn)
 		for _, in := range g.ins {
 			ta, ok := in.(*ssa.TypeAssert)
 			if !ok || !ta.CommaOk {
@@ -1319,7 +1341,7 @@ func checkC13(w *World, r *Report) {
 	evD := pr.evDeliver()
 	n := 0
 	for _, fn := range w.MethodsOf("actor", "process") {
-		g := w.FG(fn)
+		g := w.FGI(fn)
 		for _, d := range members(w.Nodes(g, Ev{Name: evD.Name, M: evD.M, Shallow: true}, false)) {
 			n++
 			cc := callOf(g.ins[d])
@@ -1351,7 +1373,7 @@ func checkC13(w *World, r *Report) {
 		}
 	}
 	{
-		g := w.FG(pr.deliverFn)
+		g := w.FGI(pr.deliverFn)
 		msgSt := make([]bool, len(g.ins))
 		sndSt := make([]bool, len(g.ins))
 		for i, in := range g.ins {
@@ -1386,8 +1408,8 @@ func checkApplyMW(w *World, r *Report, pr *procRoles) {
 	site := w.fnPos(fn)
 	var call *ssa.Call
 	nDyn := 0
-	for _, b := range fn.Blocks {
-		for _, in := range b.Instrs {
+	for _, in := range w.insOf(fn) {
+		{
 			if c, ok := in.(*ssa.Call); ok && c.Call.StaticCallee() == nil && !c.Call.IsInvoke() {
 				if _, isB := c.Call.Value.(*ssa.Builtin); !isB {
 					call = c
@@ -1425,8 +1447,8 @@ func checkApplyMW(w *World, r *Report, pr *procRoles) {
 		okAcc = has0 && hasC && len(acc.Edges) == 2
 	}
 	if okAcc {
-		for _, b := range fn.Blocks {
-			for _, in := range b.Instrs {
+		for _, in := range w.insOf(fn) {
+			{
 				if ret, ok := in.(*ssa.Return); ok {
 					if len(ret.Results) != 1 || ret.Results[0] != ssa.Value(acc) {
 						okAcc = false
@@ -1439,14 +1461,22 @@ func checkApplyMW(w *World, r *Report, pr *procRoles) {
 		r.Fail("C13.R2", key, what, site, "the wrapped function is not accumulated as rcv = mw[i](rcv) and returned")
 		return
 	}
-	// index: phi(len(mw)-1, i-1)
+	// index: i = phi(len(mw)-1, i-1), or n-1 with n = phi(len(mw), n-1)
 	idx, ok := ia.Index.(*ssa.Phi)
+	off := int64(0)
+	if b, isB := ia.Index.(*ssa.BinOp); !ok && isB && b.Op == token.SUB {
+		if c, isC := b.Y.(*ssa.Const); isC && c.Value != nil {
+			if ph, isPh := b.X.(*ssa.Phi); isPh {
+				idx, ok, off = ph, true, c.Int64()
+			}
+		}
+	}
 	desc := false
-	if ok && len(idx.Edges) == 2 {
+	if ok && len(idx.Edges) == 2 && (off == 0 || off == 1) {
 		var init, step bool
 		for _, e := range idx.Edges {
 			p := w.pathOf(e)
-			if p == "(len(P1)-K:1)" {
+			if (off == 0 && p == "(len(P1)-K:1)") || (off == 1 && p == "len(P1)") {
 				init = true
 			}
 			if b, ok := e.(*ssa.BinOp); ok && b.X == ssa.Value(idx) && ((b.Op == token.SUB && constStr(b.Y) == "1") || (b.Op == token.ADD && constStr(b.Y) == "-1")) {
@@ -1460,8 +1490,9 @@ func checkApplyMW(w *World, r *Report, pr *procRoles) {
 		r.Fail("C13.R2", key, what, site, "the index does not run from len(mw)-1 down: with any other order the first configured middleware is not the outermost")
 		return
 	}
-	// loop condition i >= 0 (or i > -1) guards the call
-	g := w.FG(fn)
+	// loop condition i >= 0 (or i > -1; n > 0 / n >= 1 in the n-1 form) guards the call
+	g := w.FGI(fn)
+	lo, lo1 := fmt.Sprint(off), fmt.Sprint(off-1)
 	pos, _ := g.CondEdges(func(v ssa.Value) (bool, bool) {
 		b, ok := v.(*ssa.BinOp)
 		if !ok || b.X != ssa.Value(idx) {
@@ -1469,9 +1500,9 @@ func checkApplyMW(w *World, r *Report, pr *procRoles) {
 		}
 		k := constStr(b.Y)
 		switch {
-		case b.Op == token.GEQ && k == "0", b.Op == token.GTR && k == "-1":
+		case b.Op == token.GEQ && k == lo, b.Op == token.GTR && k == lo1:
 			return true, true
-		case b.Op == token.LSS && k == "0":
+		case b.Op == token.LSS && k == lo:
 			return false, true
 		}
 		return false, false
